@@ -116,11 +116,16 @@ def gen_requests():
                 cl.append("ensures[C01] err == nil ==> forall k in len(coils)..8*len(res.Data) :: (res.Data[k/8] >> uint(k%8)) & 1 == 0")
             block(ctor_sig(name, kind, fr), cl)
             # Bytes
-            cl = enc_requires(kind, "r") + ["safety[C01,C03]", "modifies[C01] nothing", "fresh[C01] res"]
             if fr == "TCP":
+                cl = enc_requires(kind, "r") + ["safety[C01,C03]", "modifies[C01] nothing", "fresh[C01] res"]
                 cl.append(f"ensures[C01,C09,C18] mbapOK(res, r.TransactionID, {pdu_len(kind, 'r')}) && {pdu_req(kind, fc, 'res', 6, 'r')}")
             else:
-                cl.append(f"ensures[C01,C03,C09] len(res) == {pdu_len(kind, 'r')} + 2 && {pdu_req(kind, fc, 'res', 0, 'r')}")
+                # RTU: weakest pre-condition (C03 speaks of every frame the encoder can emit); layout under well-formedness
+                pf = payload_field(kind)
+                cl = ([f"requires len(r.{pf}) <= 65000"] if pf else []) + ["safety[C01,C03]", "modifies[C01] nothing", "fresh[C01] res"]
+                cl.append(f"ensures[C01,C03,C09] len(res) == {pdu_len(kind, 'r')} + 2")
+                ante = f"len(r.{pf}) <= 255 ==> " if pf else ""
+                cl.append(f"ensures[C01,C03,C09] {ante}{pdu_req(kind, fc, 'res', 0, 'r')}")
                 cl.append("ensures[C03,C01] crcTrailer(res, len(res))")
             block(f"(r {T}) Bytes() (res []byte)", cl)
         # ExpectedResponseLength
